@@ -9,6 +9,7 @@ import (
 	"sync"
 
 	"verif/mc/chain"
+	"verif/mc/ev"
 
 	"github.com/NethermindEth/juno/core"
 	"github.com/NethermindEth/juno/core/felt"
@@ -56,8 +57,11 @@ func txVariants(kind string) []variant[core.Transaction] {
 		// an L1 handler without calldata is not a storable message: MessageHash() indexes CallData[0] (the L1 sender), so
 		// WriteL1HandlerMsgHashes / DeleteTransactionsAndReceipts panic on it. Outside the property's domain (a block's
 		// L1 handler always carries the sender); covered by the pure codec round trip only.
-		if kind == "l1handler0" && (v.Label == ".CallData=nil" || v.Label == ".CallData=empty") {
-			continue
+		// Same for a nil ContractAddress / EntryPointSelector. Rule: a variant whose MessageHash() panics is skipped.
+		if l1, ok := v.V.(*core.L1HandlerTransaction); ok {
+			if p, _ := ev.Guard(func() { l1.MessageHash() }); p {
+				continue
+			}
 		}
 		out = append(out, v)
 	}
